@@ -3,5 +3,5 @@
 From Coq Require Import ZArith List Extraction ExtrOcamlBasic.
 From Sky Require Import Result PyList Num M_Stat.
 Extraction "model.ml" wilks taylor taylor_with analysis_calculate_ts analysis_public_ts
-  pval_counts pval_trials pval_mixed gammafit_counts pval_gammafit pval_mixed_full polynomial_fit real_sigs taylor_call_kws
+  pval_counts pval_trials pval_mixed gammafit_counts pval_gammafit pval_mixed_full polynomial_fit zerosig_callee multi_callee nsprofile_callee tg_objective real_sigs taylor_call_kws
   taylor_call_kws_b047c50_before bind_ok Z.of_nat Z.to_nat.
